@@ -72,6 +72,28 @@ def run(tier, seed):
                     chk.violation(dict(check='uc_pattern_depends_on_unit', mtu=m, minrun=c['minrun'], mindown=c['mindown'], run0=c['run0'], off0=c['off0']),
                                   'pattern %s under main time unit %s: implementation %s, automaton %s' % (''.join('1' if o else '0' for o in pat), m, feas, pat in reach),
                                   dict(cfg=c))
+    # plants with start / shutdown profiles (given per main time unit): objects that were set up before under ANOTHER main time unit must
+    # accept exactly the behaviours of the profile automaton, with equal values
+    rcfgs = [c for c in c06.fam_ramp_profiles(5, seed=seed) if not c.get('rfreq') and c['sr'] and not c['heat']][seed % 4::4]
+    rbehs, st = c06.enumerate_ramp(rcfgs)
+    chk.add_tlc(st)
+    for c in rcfgs:
+        for pre in ('min', 'd'):
+            try:
+                real = c06.RampReal(c, presetup_mtu=pre)
+            except Exception as e:
+                chk.violation(dict(check='setup_raises', family='ramp_after_other_unit', mtu=pre, error=type(e).__name__), 'set-up raised %s: %s' % (type(e).__name__, e), dict(cfg=c))
+                continue
+            for b in rbehs.get(c['id'], []):
+                chk.cnt['eval_ramp_after_other_unit'] += 1
+                stt, val, x = real.prob.solve(real.pins(b['steps']))
+                if stt != 'optimal' or abs(val - b['val']) > 1e-7 * max(1, abs(val)):
+                    chk.violation(dict(check='ramp_after_other_unit', mtu=pre, start_profile=len(c['sr']), shutdown_profile=len(c['dr'])),
+                                  'behaviour of the profile automaton %s after the plant object had been set up under main time unit %s' % (
+                                      'is infeasible' if stt != 'optimal' else 'is priced %.9g instead of %.9g' % (val, b['val']), pre), dict(cfg=c, behaviour=b))
+                    break
+            else:
+                chk.nontrivial(('ramp_unit', c['id'], pre))
     chk.assumptions += ['rates (capacities, inflow, holding cost) and durations are re-expressed by the harness for each main time unit',
                         'unequal steps: calendar days across the CET switches and calendar months']
     return chk.finish(rule='families with every per-time quantity (units), unequal steps (dst, months), discounting, split; each realised under %s; '
